@@ -222,7 +222,7 @@ func pnftJudgeTx(m *pnftModel, spec *world.TxSpec, now time.Time, strictDelete b
 		grantee, _ := sdk.AccAddressFromBech32(x.Grantee)
 		inner, _ := x.GetMessages()
 		im := inner[0]
-		sg := im.GetSigners()
+		sg := refSigners(im)
 		if len(sg) != 1 {
 			return mustReject, "multi-signer", nil
 		}
@@ -290,7 +290,16 @@ func newPnftEnv(v pnftVariant) *pnftEnv {
 	return e
 }
 
-func q(s string) string { return strings.ReplaceAll(s, "\x00", "\\0") }
+func q(s string) string { return strings.ReplaceAll(strings.ReplaceAll(s, "\x00", "\\0"), " ", "_") }
+
+func (e *pnftEnv) addID(id string) {
+	for _, d := range e.Denoms {
+		if d == id {
+			return
+		}
+	}
+	e.Denoms = append(e.Denoms, id)
+}
 
 func pnftOps(e *pnftEnv, v pnftVariant) []explore.Op {
 	A, B, C := e.A, e.B, e.C
@@ -324,6 +333,15 @@ func pnftOps(e *pnftEnv, v pnftVariant) []explore.Op {
 		txOp("Burn(d,t,A)", s(A), pnfttypes.NewMsgBurnPNFTRequest("d", "t", A.Bech)),
 		txOp("Burn(d,t,B)", s(B), pnfttypes.NewMsgBurnPNFTRequest("d", "t", B.Bech)),
 		txOp("Burn(d,t,C)", s(C), pnfttypes.NewMsgBurnPNFTRequest("d", "t", C.Bech)),
+	)
+	// an id that differs from "d" only by trailing whitespace is a different denom (ids are opaque byte strings)
+	e.addID("d ")
+	ops = append(ops,
+		createDenom("d ", B, B.Bech),
+		txOp("DeleteDenom(d_,A)", s(A), pnfttypes.NewMsgDeleteDenomRequest("d ", A.Bech)),
+		txOp("DeleteDenom(d_,B)", s(B), pnfttypes.NewMsgDeleteDenomRequest("d ", B.Bech)),
+		mint("d ", "t", B),
+		txOp("TransferDenom(d_,A->C)", s(A), pnfttypes.NewMsgTransferRequest("d ", A.Bech, C.Bech)),
 	)
 	// rollback routes: transactions whose later message fails, and transactions that are only simulated on the node
 	failing := pnfttypes.NewMsgBurnPNFTRequest("nosuchdenom", "t", A.Bech)
